@@ -49,6 +49,12 @@ def api_witness(slice_, timeout):
         o = _overlapping(sp)
         if o:
             return {'state': 'counterexample', 'cex': {'w': kind}, 'detail': 'overlapping entities %r' % (o,), 'queries': 1}
+    elif kind == 'F43':
+        from recognizers_date_time import recognize_datetime
+        sp = _spans(recognize_datetime('nos vemos más tarde esta tarde.', 'es-es', reference=datetime(2016, 11, 7)))
+        o = _overlapping(sp)
+        if o:
+            return {'state': 'counterexample', 'cex': {'w': kind}, 'detail': 'overlapping entities %r' % (o,), 'queries': 1}
     elif kind == 'F37-overlap':
         from recognizers_date_time import recognize_datetime
         sp = _spans(recognize_datetime('明天三天后', 'zh-cn', reference=datetime(2016, 11, 7)))
